@@ -24,15 +24,15 @@ func bigFromInt64(x int64) *big.Int   { return big.NewInt(x) }
 func bigFromUint64(x uint64) *big.Int { return new(big.Int).SetUint64(x) }
 
 type LoadConfig struct {
-	RepoDir    string   // module directory of the package under test (e.g. /repo or /repo/stores/sqlite)
-	PkgDir     string   // directory of the package the harness is injected into
-	Harness    []string // harness source files (package clause is rewritten)
-	RTDecl     string   // runtime declarations file
-	Models     []string // model source files injected alongside
-	ExtraPkgs  []string // extra root patterns
-	LightDeps  bool     // load dependencies from export data (types only) except ExtraPkgs
+	RepoDir      string   // module directory of the package under test (e.g. /repo or /repo/stores/sqlite)
+	PkgDir       string   // directory of the package the harness is injected into
+	Harness      []string // harness source files (package clause is rewritten)
+	RTDecl       string   // runtime declarations file
+	Models       []string // model source files injected alongside
+	ExtraPkgs    []string // extra root patterns
+	LightDeps    bool     // load dependencies from export data (types only) except ExtraPkgs
 	StripImports []string // blank imports removed from the analysed copy of the package (drivers replaced by models)
-	Verbose    bool
+	Verbose      bool
 }
 
 type Loaded struct {
@@ -254,6 +254,8 @@ func parseEntry(name, rest string) (EntryOpts, error) {
 				return eo, err
 			}
 			eo.Preempt = n
+		case "conformance":
+			eo.NoConformance = v == "off"
 		case "numstr":
 			eo.NoNumStr = v == "off"
 		case "race":
